@@ -261,9 +261,24 @@ var heapSortTable = map[string]string{}
 
 func (e *Env) heapSorts() map[string]string { return heapSortTable }
 
+// memHeap: scalar memory is split by SMT sort and, for integers, by the underlying basic type: under Go's type
+// safety (no unsafe) a location has one static type up to conversion between types with identical underlying types,
+// so locations of different underlying integer types cannot alias.
 func (e *Env) memHeap(t types.Type) string {
 	s := e.sortOf(t)
 	n := heapName(s)
+	if s == "Int" {
+		if b, ok := t.Underlying().(*types.Basic); ok {
+			k := b.Name()
+			switch b.Kind() {
+			case types.UntypedInt:
+				k = "int"
+			case types.UntypedRune:
+				k = "int32"
+			}
+			n = "Mem_Int_" + k
+		}
+	}
 	heapSortTable[n] = "(Array Ref " + s + ")"
 	return n
 }
